@@ -6,6 +6,7 @@ import (
 	"strings"
 
 	"github.com/carapace-sh/carapace/internal/common"
+	"github.com/carapace-sh/carapace/pkg/match"
 )
 
 var sanitizer = strings.NewReplacer(
@@ -81,7 +82,7 @@ func commonValuePrefix(values ...common.RawValue) (prefix string) {
 // ActionRawValues formats values for bash.
 func ActionRawValues(currentWord string, meta common.Meta, values common.RawValues) string {
 	for index, value := range values {
-		values[index].Value = strings.TrimPrefix(value.Value, wordbreakPrefix)
+		values[index].Value = match.TrimPrefix(value.Value, wordbreakPrefix) // the values matched the word case-insensitively under CARAPACE_MATCH
 	}
 
 	lastSegment := strings.TrimPrefix(currentWord, wordbreakPrefix) // last segment of currentWord split by COMP_WORDBREAKS
